@@ -1014,8 +1014,14 @@ def run(ck: core.Check):
         if not hasattr(env, "p_const"):
             env.prepare_probes()
         n_car = ck.pick(35, 630)
+        scs_ = [gen_carrier_scenario(rng, k) for k in range(n_car)]
+        try:
+            cmodel = ck.driver().ask_many("C16", [{"init": sc["init"], "blocks": strip(sc["blocks"])} for sc in scs_])
+        except Exception as e:  # noqa: BLE001
+            ck.broken("correspondence", "C16 driver", str(e))
+            cmodel = [None] * n_car
         for k in range(n_car):
-            sc = gen_carrier_scenario(rng, k)
+            sc = scs_[k]
             try:
                 recs = run_carrier_scenario(env, sc, tag=k)
             except Exception as e:  # noqa: BLE001
@@ -1030,6 +1036,15 @@ def run(ck: core.Check):
             ck.count(("carrier", repr(sc)))
             for mgr, kind, what in carrier_oracle(sc, recs):
                 ck.failure(f"{mgr}:{kind}", f"{mgr}: {what}", {"carrier": sc, "tag": k})
+            # correspondence: the settings read at the use points on entering a body / after an exit are the model's snapshots
+            m_ = cmodel[k]
+            if m_ is not None and "error" not in m_:
+                real_log = [r[1] for r in recs if not r[0].startswith("before") and "after the inner block" not in r[0]]
+                if real_log != m_["log"] and -1 not in [x for r_ in real_log for x in r_]:
+                    cstats["model_mismatches"] = cstats.get("model_mismatches", 0) + 1
+                    if cstats["model_mismatches"] <= 3:
+                        ck.broken("correspondence", "C16 carrier scenario: settings at the use points vs the model's snapshots",
+                                  f"{sc}: model {m_['log']} real {real_log}")
         for kind_, why in cstats["not_observable"].items():
             ck.broken("correspondence", f"C16 carrier {kind_} not observable", why)
         if cstats["body_runs"] < cstats["scenarios"]:
